@@ -218,7 +218,7 @@ impl Prop for Algebra {
         let mut i = 0;
         let mut g = 0;
         while i < merged_args.len() {
-            let size = (case.nest[g % case.nest.len()] as usize).min(merged_args.len() - i);
+            let size = (case.nest[g % case.nest.len().max(1)] as usize).clamp(1, 3).min(merged_args.len() - i);
             nested_parts.push(if size == 1 { merged_args[i].clone() } else { merge(&merged_args[i..i + size], v2)? });
             i += size;
             g += 1;
